@@ -56,7 +56,7 @@ Eval(stk, i, sg) ==
          IF ~a.ret THEN Out(Pair("R0", Leaf("ErrOpen")), FALSE, [sg EXCEPT !.pol[p.id] = a.b])
          ELSE LET in == Eval(stk, i + 1, [sg EXCEPT !.pol[p.id] = a.b])
                   failed == IsFailureX(p.h, in.o.r, in.o.e)
-                  r == BO(p.cfg)!Record(in.sg.pol[p.id], ~failed, in.sg.now)
+                  r == BO(p.cfg)!RecordD(in.sg.pol[p.id], ~failed, in.sg.now, IF failed THEN DfnOf(p) ELSE -1)
               IN Out(in.o, in.ok /\ ~failed, [in.sg EXCEPT !.pol[p.id] = r.b])
     [] p.k = "rl" ->
          \* m permits per period; a refusal costs nothing
